@@ -51,8 +51,11 @@ class RestoreArgParser:
         if parsed.version:
             return PrintVersionArgs(argv0=sys_argv[0])
         else:
-            path = os.path.normpath(
-                os.path.join(curdir + os.path.sep, parsed.path))
+            # (from "/" the old curdir + os.path.sep gave "//", which
+            # normpath keeps and which no original location starts with)
+            path = os.path.normpath(os.path.join(curdir, parsed.path))
+            if path.startswith('//'):
+                path = path[1:]
 
             return RunRestoreArgs(path=path,
                                   sort=cast(Sort, {
